@@ -273,7 +273,15 @@ struct Guard {
     slow_call_s: f64,
     /// a row is cut short after this many slow decisions
     handful: usize,
+    /// the FIRST decision of every row runs on a helper thread; if it has not answered after this
+    /// many seconds (wall, VERIF_C08_HARD_TIMEOUT_S) the helper is abandoned and the row is cut
+    hard_timeout_s: f64,
 }
+
+/// helper threads abandoned in a decision that did not return in time (they die with the process)
+static ABANDONED: std::sync::atomic::AtomicUsize = std::sync::atomic::AtomicUsize::new(0);
+/// beyond this many the sweep gives up (remaining rows are skipped like after the wall budget)
+const ABANDON_CAP: usize = 64;
 
 impl Guard {
     fn new(ctx: &Ctx) -> Guard {
@@ -283,10 +291,28 @@ impl Guard {
             budget_s: env("VERIF_C08_BUDGET_S").unwrap_or(ctx.tier.pick(150.0, 1500.0)),
             slow_call_s: env("VERIF_C08_SLOW_CALL_S").unwrap_or(0.5),
             handful: 3,
+            hard_timeout_s: env("VERIF_C08_HARD_TIMEOUT_S").unwrap_or(10.0),
         }
     }
     fn over_budget(&self) -> bool {
-        self.start.elapsed().as_secs_f64() > self.budget_s
+        self.start.elapsed().as_secs_f64() > self.budget_s || ABANDONED.load(std::sync::atomic::Ordering::SeqCst) >= ABANDON_CAP
+    }
+    /// One decision on a helper thread: Some((decision, cpu seconds)), or None when it did not
+    /// answer within the hard timeout (the helper is left behind; a decision cannot be interrupted).
+    fn first_call(&self, phi: f64, ev: [u8; 64], stake: u64, total: u64) -> Option<(u8, f64)> {
+        let (tx, rx) = std::sync::mpsc::channel();
+        std::thread::spawn(move || {
+            let t0 = thread_cpu_s();
+            let a = call(phi, ev, stake, total);
+            let _ = tx.send((a, thread_cpu_s() - t0));
+        });
+        match rx.recv_timeout(std::time::Duration::from_secs_f64(self.hard_timeout_s)) {
+            Ok(v) => Some(v),
+            Err(_) => {
+                ABANDONED.fetch_add(1, std::sync::atomic::Ordering::SeqCst);
+                None
+            }
+        }
     }
 }
 
@@ -316,12 +342,21 @@ fn run_row(cell: &Cell, r: usize, g: &Guard) -> (Vec<u8>, Cut) {
             return (out, Cut::Budget);
         }
         let ev = lot::ev_from_biguint(d);
-        let t0 = thread_cpu_s();
-        let a = call(cell.phi, ev, row.stake, cell.total);
-        let was_slow = thread_cpu_s() - t0 > g.slow_call_s;
+        let (a, cpu) = if i == 0 {
+            match g.first_call(cell.phi, ev, row.stake, cell.total) {
+                Some(v) => v,
+                None => return (out, Cut::Slow),
+            }
+        } else {
+            let t0 = thread_cpu_s();
+            let a = call(cell.phi, ev, row.stake, cell.total);
+            (a, thread_cpu_s() - t0)
+        };
+        let was_slow = cpu > g.slow_call_s;
         out[i] = if !was_slow && i % 4 == 0 && call(cell.phi, ev, row.stake, cell.total) != a { a | NONDET } else { a };
         if was_slow {
-            slow += 1;
+            // a decision ten times over the threshold counts as the whole handful
+            slow += if cpu > 10.0 * g.slow_call_s { g.handful } else { 1 };
             if slow >= g.handful && i + 1 < cell.draws.len() {
                 return (out, Cut::Slow);
             }
@@ -675,10 +710,22 @@ fn public_case(pc: &PubCase, ln2c: &Iv, g: &Guard) -> Report {
         let mut slow = 0usize;
         for index in 0..pc.m {
             let ev = mc_ref::dense_mapping(&msgp, index, &sigma);
-            let t0 = thread_cpu_s();
-            incl_dec.push(call(pc.phi, ev, stake, total) == WON);
-            if thread_cpu_s() - t0 > g.slow_call_s {
-                slow += 1;
+            let (a, cpu) = if index == 0 {
+                match g.first_call(pc.phi, ev, stake, total) {
+                    Some(v) => v,
+                    None => {
+                        slow = g.handful;
+                        break;
+                    }
+                }
+            } else {
+                let t0 = thread_cpu_s();
+                let a = call(pc.phi, ev, stake, total);
+                (a, thread_cpu_s() - t0)
+            };
+            incl_dec.push(a == WON);
+            if cpu > g.slow_call_s {
+                slow += if cpu > 10.0 * g.slow_call_s { g.handful } else { 1 };
                 if slow >= g.handful {
                     break;
                 }
@@ -880,7 +927,9 @@ pub fn run(ctx: &Ctx) -> ! {
     let guard = Guard::new(ctx);
     rep.extra(
         "guards",
-        json!({"wall_budget_s": guard.budget_s, "slow_decision_cpu_s": guard.slow_call_s, "row_cut_after_slow_decisions": guard.handful}),
+        json!({"wall_budget_s": guard.budget_s, "slow_decision_cpu_s": guard.slow_call_s, "row_cut_after_slow_decisions": guard.handful,
+               "or_after_one_decision_slower_than_cpu_s": 10.0 * guard.slow_call_s,
+               "first_decision_of_a_row_abandoned_after_wall_s": guard.hard_timeout_s}),
     );
 
     // ---- replay of one case
@@ -1000,6 +1049,7 @@ pub fn run(ctx: &Ctx) -> ! {
         }
     }
     rep.extra("rows_cut_short_because_decisions_were_slow", json!(cut_slow));
+    rep.extra("decisions_abandoned_after_hard_timeout", json!(ABANDONED.load(std::sync::atomic::Ordering::SeqCst)));
     rep.extra("rows_skipped_or_cut_by_wall_budget", json!(cut_budget));
     if cut_slow + cut_budget > 0 {
         rep.exhaustive = false;
